@@ -121,6 +121,10 @@ func runC03(env *Env, rc *RunCtx) {
 				return d
 			}
 			site := op + "/" + kind.String()
+			if !r.Returned && r.Outcome == DriveStepLimit {
+				rc.Count("inconclusive_step_limit", 1)
+				continue
+			}
 			if !r.Returned {
 				rc.Count("probe_no_result", 1)
 				rc.Violate("no-result", site, fmt.Sprintf("check did not return after %s fault at call %d/%d (%s)", kind, k, N, op), w(), e, et)
